@@ -497,6 +497,8 @@ def run_loop(I, st, fr, site, roots, run_body, what, extra_values=()):
         I.assumptions = saved_ass
         fr.loop_ix = saved_loop_ix
         cands = [c for i, c in enumerate(cands) if i not in failed]
+    import loop_specs
+    loop_specs.check(I, fr, lname, names, entry, fresh, head, outs)
     I.loop_info.append({"fn": lname[0], "loop": lname[1], "what": what, "iterations": it,
                         "invariants": [fmt_cand(c) for c in cands if c[0] != "nat_ge"]})
     exits = [(s, UNIT, None) for (s, v, ctl) in outs if ctl == "break"]
